@@ -744,7 +744,7 @@ class C01(PropertyCheck):
     }
     # loop ties (DESIGN §12): Generated/LoopsSlim.lean is regenerated from the source on every run and
     # Proofs/TieSlim.lean proves each generated definition equal to the Impl function, for all sizes
-    loop_tie_modules = ["LoopsSlim"]
+    loop_tie_modules = ["LoopsSlim", "LoopsSlim2"]
     modelled_functions = [
         "autoarray/mask/mask_2d_util.py:native_index_for_slim_index_2d_from",
         "autoarray/mask/mask_2d_util.py:mask_slim_indexes_from",
